@@ -2,10 +2,10 @@ from .core import BASE_TRUST, Problem
 
 META = {
     "category": "proof",
-    "text": "Lean 4 theorem mutex_inv: in every state reachable by ANY interleaving of the individual system calls of ANY number of processes running the lock protocol of lib/file (O_EXCL `.lock`, `.rlock` created only under the lock, writer re-check), there are never two writers and never a writer together with a reader; lock files are removed only by their creator; a process that gives up has changed nothing; no_lost_update: under that mutual exclusion a read-modify-write by any number of writers in any interleaving ends as the update applied once per effective commit; gen_commit_publishes_before_release: the regenerated Handler.commit renames the new file into place before it removes the lock. The protocol the theorem is about is tied to the source by regenerated effect lists and protocol flags (extract/fsproto, gen_eq_ref theorems) and by schedule replay: goroutine 'virtual processes' run the REAL handler code with every VerifPoint a yield point under seeded schedules (uniformly random, priority based with change points (PCT), and a systematic 'park one process after k steps while the others run' sweep); control files after every step are compared with the model and mutual exclusion / no-lost-update / no-leftover laws are checked on the real code",
+    "text": "Lean 4 theorem mutex_inv: in every state reachable by ANY interleaving of the individual system calls of ANY number of processes running the lock protocol of lib/file (O_EXCL `.lock`, `.rlock` created only under the lock, writer re-check), there are never two writers and never a writer together with a reader; lock files are removed only by their creator; a process that gives up has changed nothing; no_lost_update: under that mutual exclusion a read-modify-write by any number of writers in any interleaving ends as the update applied once per effective commit; gen_commit_publishes_before_release: the regenerated Handler.commit renames the new file into place before it removes the lock. The protocol the theorem is about is tied to the source by regenerated effect lists and protocol flags (extract/fsproto, gen_eq_ref theorems) and by schedule replay: goroutine 'virtual processes' run the REAL handler code with every VerifPoint a yield point under seeded schedules (uniformly random, priority based with change points (PCT), and a systematic 'park one process after k steps while the others run' sweep); control files after every step are compared with the model and mutual exclusion / no-lost-update / no-leftover laws are checked on the real code. THE WAITING SIDE ('a process that cannot get access within --wait-timeout fails with a lock-timeout error and changes nothing') is inside the model, regenerated: extract/fsproto -retry translates (go/ast, fail closed) the three TryCreate...File functions, the dispatch tryCreateControlFile, the retry loop CreateControlFileContext (per round: attempt, test of the attempt's result, test of the context, select between ctx.Done() and the timer - IN SOURCE ORDER), the recording method Handler.CreateControlFileContext and NewHandlerForRead / NewHandlerForUpdate with their error returns into the typed IRs of Model/Retry.lean (Gen/RetryLoop.lean). The environment is an arbitrary function of time (what other processes have lying in the directory at every instant, failing creates, lengths of sleeps) and the context ends at an arbitrary instant T - before the call, between two steps of the successful attempt, between the attempt and the test behind it, during a sleep. Theorems over the regenerated programs for ALL environments, all T, all starting instants and numbers of rounds: retry_timeout_changes_nothing (an error return leaves no control file created by the call), retry_success_owns_file (a returned file exists, is the one the last attempt created, and nothing else of the call exists), retry_returns (the loop returns within T+1 rounds), handler_records_what_it_creates (every existing control file of the process is recorded in the handler, before and after), new_handler_for_update_all_or_nothing / new_handler_for_read_all_or_nothing (a failing constructor leaves nothing and holds nothing; a succeeding one owns and records exactly .lock+.temp / .rlock). They are obtained from path enumerations proved sound once (run_outcome_mem: every run ends in an enumerated outcome) and evaluated on the regenerated values, so a reordering of the loop's statements changes the definition the theorem is about; when an obligation breaks the executable model is searched (3 file types x 17 environments x 24 instants) and prints the violating schedule step by step. Dynamic tie: op lines c09.cancelat (lib/file's CreateControlFileContext with the context cancelled at every step of the first attempt / a held table with a real timeout, compared with the regenerated loop run by the Lean driver); law timeout_or_cancel_left_control_file on real csvq processes held (VERIF_PAUSE_AT) at lock.check / lock.create / lock.recheck / update.open / temp.create / rlock.stat / rlock.createlock / rlock.create / the removal of the reader's transient lock / read.open for longer than their --wait-timeout with NO other process in the way, and with SIGINT / SIGTERM delivered at those steps (whatever is reported: an error means no control file, an unchanged table and a second process that updates at once; success means the change is committed), and in-process on lib/file with a context whose deadline passes between two consecutive looks at it for every position, with real timeout contexts held at each step and cancellations at each step",
     "design_ref": "DESIGN.md section 5, C09",
-    "note": "trusted: Lean kernel; extract/fsproto; open(O_CREAT|O_EXCL) and unlink are atomic, glob sees a consistent directory snapshot; flock(2) on the data file is a second mechanism in the code that the model does not need; the VerifPoint hooks (tag verif); virtual processes share one OS process (flock is per open file description, so conflicts behave as across processes)",
-    "technique": "Lean 4 machine-checked inductive invariant over an unbounded-process transition system + regenerated protocol tie + schedule replay of the real handler code",
+    "note": "trusted: Lean kernel; extract/fsproto; open(O_CREAT|O_EXCL) and unlink are atomic, glob sees a consistent directory snapshot; flock(2) on the data file is a second mechanism in the code that the model does not need; the VerifPoint hooks (tag verif); virtual processes share one OS process (flock is per open file description, so conflicts behave as across processes); waiting side: extract/fsproto -retry (pattern translation of ~120 source lines, every unrecognised statement ends the run); one instant per statement of the IR (a system call is atomic; the context is looked at only where the source looks at it); ControlFile.Close is modelled as succeeding (a remove(2) that fails or is interrupted on the RELEASE side is not modelled: the file then stays, and no theorem covers that); a positive retry delay (with --retry-delay 0 Go's select may pick the timer although the context is over); NewHandlerForCreate does not wait (TryCreateLockFile directly) and is covered by pausedCreate and gen_forcreate_eq_ref only",
+    "technique": "Lean 4 machine-checked inductive invariant over an unbounded-process transition system + regenerated protocol tie + schedule replay of the real handler code; for the waiting side: regenerated typed IR of the retry loop + path enumeration proved sound for every environment and every instant of expiry, evaluated by the kernel on the regenerated programs + concrete replay on processes held / signalled at each step",
 }
 
 
@@ -13,7 +13,9 @@ def run(run):
     q = run.tier == "quick"
     run.assumptions += ["O_EXCL create / unlink atomic; directory listing consistent", "random rlock suffixes do not collide"]
     run.regen("fsproto", ["go", "run", "-C", "extract/fsproto", "."], "Csvq/Gen/FsProto.lean")
-    ok = run.obligations_for(["Csvq.Props.C09"])
+    # the waiting side: the retry loop, the three attempts, the recording method and the constructors as typed IRs
+    run.regen("fsproto-retry", ["go", "run", "-C", "extract/fsproto", ".", "-retry"], "Csvq/Gen/RetryLoop.lean")
+    ok = run.obligations_for(["Csvq.Props.C09", "Csvq.Props.C09Retry"])
     csvq = run.build_csvq()
     env = {"VERIF_CSVQ": str(csvq)} if csvq else {}
     run.stream("c09", 240 if q else 6000, env=env, timeout=3000)
@@ -32,9 +34,16 @@ def run(run):
             run.problems.append(Problem("build", "model-search", "BFS over the executable protocol with the regenerated flags (3 processes): " + out, concrete=out.startswith("violating")))
         except Exception as e:
             run.problems.append(Problem("build", "model-search", "search failed: %s" % e))
+        # ... and the regenerated retry loop for an environment and an instant at which the context ends such that
+        # CreateControlFileContext returns an error and leaves a control file behind
+        try:
+            out = subprocess.run([str(LEAN / ".lake" / "build" / "bin" / "model-c09")], input="c09.retrysearch\n", capture_output=True, text=True, timeout=600).stdout.strip()
+            run.problems.append(Problem("build", "retry-search", "search over the regenerated retry loop (3 file types x 17 environments x 24 instants at which the context ends): " + out, concrete=out.startswith("violating")))
+        except Exception as e:
+            run.problems.append(Problem("build", "retry-search", "search failed: %s" % e))
     return run.finish(
         level="proof",
         rule="2-4 virtual processes (writers doing read-modify-write increments, readers) on one table, every VerifPoint of lib/file a yield point, seeded random schedules; non-trivial = distinct (roles, schedule length, outcomes) signature",
-        trusted_base=BASE_TRUST + ["extract/fsproto", "POSIX open(O_EXCL)/unlink/glob semantics"],
-        checker_cmd="cd /verif/lean && lake build Csvq.Props.C09 && lake env lean <#print axioms for every theorem>",
+        trusted_base=BASE_TRUST + ["extract/fsproto (both modes)", "POSIX open(O_EXCL)/unlink/glob semantics"],
+        checker_cmd="cd /verif/lean && lake build Csvq.Props.C09 Csvq.Props.C09Retry && lake env lean <#print axioms for every theorem>",
     )
